@@ -567,21 +567,20 @@ func (c *Ctx) builtinAppend(st *State, args []*Val, call *ssa.CallCommon, pos to
 		oldA := Select(h, base)
 		srcA := Select(h, mbase)
 		var na *Term
-		if off.IsConst() && off.Val == 0 && mlen.IsConst() && mlen.Val <= 64 {
-			// contents beyond len are irrelevant: reuse the old array and store
+		// The fresh backing array is modelled as the old array's contents at
+		// the same offset (indices outside [off, off+newLen) are unobservable),
+		// so the old elements are preserved by construction.
+		base0 := Add(off, ln)
+		if mlen.IsConst() && mlen.Val <= 64 {
 			na = oldA
-			// a nil slice has unconstrained region contents; fine.
 			for e := uint64(0); e < mlen.Val; e++ {
-				na = Store(na, Add(ln, Const(64, e)), Select(srcA, Add(moff, Const(64, e))))
+				na = Store(na, Add(base0, Const(64, e)), Select(srcA, Add(moff, Const(64, e))))
 			}
 		} else {
 			na = Fresh("appended", oldA.S)
 			i := BoundVar("i", BV(64))
-			inOld := ULt(i, ln)
-			inNew := And(ULe(ln, i), ULt(i, newLen))
-			body := And(
-				Implies(inOld, Eq(Select(na, i), Select(oldA, Add(off, i)))),
-				Implies(inNew, Eq(Select(na, i), Select(srcA, Add(moff, Sub(i, ln))))))
+			inNew := And(ULe(base0, i), ULt(i, Add(base0, mlen)))
+			body := Eq(Select(na, i), Ite(inNew, Select(srcA, Add(moff, Sub(i, base0))), Select(oldA, i)))
 			c.assume(st.pc, Forall([]*Term{i}, body, []*Term{Select(na, i)}))
 		}
 		st.heap[k] = Store(h, nref, na)
@@ -589,7 +588,7 @@ func (c *Ctx) builtinAppend(st *State, args []*Val, call *ssa.CallCommon, pos to
 	if len(ss) == 0 {
 		// zero-size elements
 	}
-	return mkVal(s.Typ, []*Term{nref, Const(64, 0), newLen, ncap})
+	return mkVal(s.Typ, []*Term{nref, off, newLen, ncap})
 }
 
 func (c *Ctx) builtinCopy(st *State, args []*Val, resT types.Type) *Val {
